@@ -28,7 +28,7 @@ pub fn bounds(tier: Tier) -> Bounds {
             e1_max_appends: env("VERIF_RAFT_E1_APPENDS", 1) as u8,
             e1_state_cap: env("VERIF_RAFT_E1_CAP", 30_000_000),
             e2_k: env("VERIF_RAFT_E2_K", 3) as u32,
-            e2_max_appends: env("VERIF_RAFT_E2_APPENDS", 3) as u8,
+            e2_max_appends: env("VERIF_RAFT_E2_APPENDS", 4) as u8,
             e2_walk_cap: env("VERIF_RAFT_E2_WALK", 600) as u32,
             e2_state_cap: env("VERIF_RAFT_E2_CAP", 40_000_000),
             e2_term_cap: env("VERIF_RAFT_E2_TERM_CAP", 8),
@@ -39,7 +39,7 @@ pub fn bounds(tier: Tier) -> Bounds {
             e1_max_appends: env("VERIF_RAFT_E1_APPENDS", 2) as u8,
             e1_state_cap: env("VERIF_RAFT_E1_CAP", 60_000_000),
             e2_k: env("VERIF_RAFT_E2_K", 4) as u32,
-            e2_max_appends: env("VERIF_RAFT_E2_APPENDS", 4) as u8,
+            e2_max_appends: env("VERIF_RAFT_E2_APPENDS", 5) as u8,
             e2_walk_cap: env("VERIF_RAFT_E2_WALK", 600) as u32,
             e2_state_cap: env("VERIF_RAFT_E2_CAP", 150_000_000),
             e2_term_cap: env("VERIF_RAFT_E2_TERM_CAP", 8),
@@ -107,6 +107,12 @@ pub fn run(args: &Args) -> i32 {
         json!({"regime": "fault-free FIFO schedule with <= k deviations (Drop, DeliverDup, Delay, Defer, Skew(i), Isolate(i), Heal, Append(leader)) at every position, run to a fixpoint", "states": s2.states, "transitions": s2.transitions, "executions": s2.executions,
                "states_per_layer": s2.per_layer_states, "executions_per_layer": s2.per_layer_executions, "walk_cap_hits": s2.walk_cap_hits, "states_not_expanded_beyond_term_cap": s2.term_cap_hits, "longest_walk_steps": s2.longest_walk, "capped": s2.capped, "wall_s": t1.elapsed().as_secs_f64()}),
     );
+    {
+        let mut sk = crate::explore::SKIPPED_BASES.lock().unwrap().clone();
+        sk.sort();
+        sk.dedup();
+        report.set("base_states_skipped_because_their_script_cannot_be_completed_on_this_code", json!(sk));
+    }
     report.set("violations_of_sibling_properties_seen", json!(*col.others.lock().unwrap()));
     for base in bases.iter().take(3) {
         report.sample(json!({"regime": "E1", "base": base.name, "base_script": base.events.iter().map(|e| e.to_text()).collect::<Vec<_>>(), "then": "every event sequence up to the depth bound"}));
